@@ -309,6 +309,22 @@ class GetitemMonitor:
         else:
             a, b, st = 0, n, 1
         if st != 1 or b <= a:
+            # selections the band model cannot describe (a stride, nothing selected): the library refuses them; if one comes back
+            # it must at least carry the labels of the channels it holds
+            sel = list(range(a, b, st))
+            tol = label_tol(m["fc"], m["bw"], n)
+            if isinstance(out, pb.RadioSignal) and tol <= m["bw"] / 1000:
+                ctx.count("oracle[getitem_freq_unsupported]")
+                want = [model_labels(m["fc"], m["bw"], m["align"], n)[i] for i in sel]
+                try:
+                    vals = [F(float(v)) for v in out.channel_freqs.to_value(u.Hz)]
+                except Exception:
+                    vals = None
+                if vals is None or len(vals) != len(want) or any(abs(v - w) > tol for v, w in zip(vals, want)):
+                    ctx.violation(o, f"frequency selection {index[1]} (channels {sel[:6]}) returned a {type(out).__name__} whose labels "
+                                     f"{None if vals is None else [float(v) for v in vals[:4]]} are not those of the selected channels "
+                                     f"{[float(w) for w in want[:4]]}", {"index": index},
+                                  {"cls": m["cls"].__name__, "what": "unsupported_selection_mislabelled", "stride": st, "empty": not sel})
             return
         feats = {"cls": m["cls"].__name__, "baseband": issubclass(m["cls"], pb.BasebandSignal),
                  "freq_sliced": len(index) > 1, "trailing_index": len(index) > 2}
